@@ -1,6 +1,7 @@
 package util
 
 import (
+	"io"
 	"os"
 	"path/filepath"
 	"sort"
@@ -78,7 +79,25 @@ func WriteFileAt(dir *os.File, filename string, data []byte, perm os.FileMode) e
 	if oerr != nil {
 		return oerr
 	}
-	_, werr := unix.Write(fd, data)
-	unix.Close(fd)
+	werr := writeAllToFD(fd, data)
+	// errors of delayed writes may only be reported at close
+	if cerr := unix.Close(fd); werr == nil {
+		werr = cerr
+	}
 	return werr
+}
+
+// writeAllToFD writes the whole data, continuing after short writes
+func writeAllToFD(fd int, data []byte) error {
+	for len(data) > 0 {
+		n, werr := unix.Write(fd, data)
+		if werr != nil {
+			return werr
+		}
+		if n <= 0 {
+			return io.ErrShortWrite
+		}
+		data = data[n:]
+	}
+	return nil
 }
